@@ -15,6 +15,7 @@ import KafkaVerif.Lemmas.FetcherLife
 import KafkaVerif.Lemmas.ReaderCloseSystem
 import KafkaVerif.Lemmas.GroupConns
 import KafkaVerif.Lemmas.WriterCloseDetail
+import KafkaVerif.Lemmas.WriterCloseProgress
 
 namespace KV.C09
 open KV.WriterClose
@@ -770,6 +771,24 @@ theorem writer_detail_close_invariants (cfg : KV.Writer.Cfg) (s : KV.Writer.Stat
     KV.WriterCloseDetail.DI s ∧ KV.WriterCloseDetail.CI s ∧ KV.WriterCloseDetail.AI s :=
   ⟨KV.WriterCloseDetail.di_reachable cfg s hr, KV.WriterCloseDetail.ci_reachable cfg s hr,
    KV.WriterCloseDetail.ai_reachable cfg s hr⟩
+
+/-- **writer_detail_close_progress** — Close cannot get stuck on the detailed Writer model: in every reachable state
+with the writer closed in which `closeReturn` is not yet enabled, some driven event is enabled — a step of Close (detach
+the open batch, queue it, close a queue, release the mutex), of a partition writer's goroutine (take a batch, attempt,
+broker decision, Completion, complete, exit on the closed empty queue), or of a call already inside WriteMessages (next
+balancing step, ErrClosedPipe, return).  No new caller, no context cancellation and no batch timer is needed.
+(`MaxAttempts ≥ 1` is the library's own normalisation.)  The original D1 window is excluded by the model's guards
+`batch` / `newPW` requiring `closed = false`, which C01/C07/C08 tie to the code trace by trace. -/
+theorem writer_detail_close_progress (cfg : KV.Writer.Cfg) (hmax : 1 ≤ cfg.maxAttempts) (s : KV.Writer.State)
+    (hr : KV.Writer.Reachable cfg s) (hc : s.closed = true) (hn : KV.Writer.step cfg s .closeReturn = none) :
+    ∃ e, KV.WriterCloseDetail.driven e = true ∧ (KV.Writer.step cfg s e).isSome = true :=
+  KV.WriterCloseDetail.close_progress cfg hmax s hr hc hn
+
+/-- the invariants the progress proof adds -/
+theorem writer_detail_progress_invariants (cfg : KV.Writer.Cfg) (s : KV.Writer.State) (hr : KV.Writer.Reachable cfg s) :
+    KV.WriterCloseDetail.PI s ∧ KV.WriterCloseDetail.QI s ∧ KV.WriterCloseDetail.CS cfg s :=
+  ⟨KV.WriterCloseDetail.pi_reachable cfg s hr, KV.WriterCloseDetail.qi_reachable cfg s hr,
+   KV.WriterCloseDetail.cs_reachable cfg s hr⟩
 
 /-- not vacuous: a run of the detailed model in which Close begins while a batch is still queued, the batch is then
 sent, its Completion runs, the call returns, the sender exits and Close returns -/
